@@ -108,7 +108,8 @@ def profile(doc):
             toks['by:' + c] += 2
         names = {d['v']['l']: d['name'] for d in b.get('debug', []) if isinstance(d.get('v'), dict) and not d['v'].get('p')}
         params = [[names.get(i), b['locals'][i]['ty']] for i in range(1, 1 + n)]
-        methods.setdefault(owner, {})[b['name']] = {'path': k, 'tokens': dict(toks), 'params': params}
+        from . import hoist
+        methods.setdefault(owner, {})[b['name']] = {'path': k, 'tokens': dict(toks), 'params': params, 'entry_skip': hoist.entry_skip(b)}
     fields = {}
     for adt, a in doc['adts'].items():
         if a.get('kind') != 'struct':
